@@ -137,7 +137,8 @@ def swap(
         dim[1, 1] = np.round(dim[1, 1])
         num_sys = 2
     else:
-        num_sys = len(dim)
+        # `dim` may be a 2-row table (row and column dimensions): the subsystems are its columns.
+        num_sys = np.asarray(dim).shape[-1]
 
     # Verify that the input sys makes sense.
     if any(sys) < 1 or any(sys) > num_sys:
